@@ -187,11 +187,18 @@ def infeasible_case(item) -> Dict[str, Any]:
     else:
         ctx.assume(z3.Or(post < lags, post > L - 1 - leads), 'period cannot hold the lags/leads (outside the default range)')
 
+    # the periods may carry ANY status already (e.g. every period solved, then the model reindexed to a sub-span: an edge
+    # period that was feasible before is not any more)
+    ctx.assume(z3.And(z3.Int('status_all') >= 0, z3.Int('status_all') < len(lf.STATUS_LIST)), f'status of every period before the call in {lf.STATUS_LIST}')
+
     def fn():
         m = Model(list(range(L)))
         log: list = []
         for n in m.names:
             m.__dict__['_' + n] = ZSeries(n, L, log)
+        st = lf.STATUS_LIST[SInt('status_all').__index__()]
+        m.status = st
+        m.iterations = -1 if st == '-' else lf.ITERS0
         with lf.shimmed():
             a = _run(lambda: m.solve_t(SInt(tz), max_iter=1, errors=errors, failures='ignore', tol=SFloat('tol')))
         served = a[0] == 'ret' or (a[0] == 'exc' and a[1] == 'NonConvergenceError')
@@ -209,11 +216,14 @@ def infeasible_case(item) -> Dict[str, Any]:
             mm = Model(list(range(L)))
             for i, n in enumerate(mm.names):
                 mm[n] = np.arange(L, dtype=float) * 0.25 + 1.5 + i
+            st0 = lf.STATUS_LIST[m_.eval(z3.Int('status_all'), model_completion=True).as_long()]
+            mm.status = st0
+            mm.iterations = -1 if st0 == '-' else lf.ITERS0
             with np.errstate(all='ignore'):
                 ca = _run(lambda: mm.solve_t(t, max_iter=1, errors=errors, failures='ignore'))
             ok = ca[0] == 'ret' or (ca[0] == 'exc' and ca[1] == 'NonConvergenceError')
             out['bad'].append({'what': f'solve_t({t}) on a span of {L} periods with LAGS={lags} LEADS={leads} was served ({r["a"]}) instead of rejected',
-                               'replayed': ok, 'values': {'text': text, 't': t, 'L': L, 'outcome': ca[:2]}})
+                               'replayed': ok, 'values': {'text': text, 't': t, 'L': L, 'status_before': st0, 'outcome': ca[:2]}})
     out['stats'] = ctx.stats.as_dict()
     out['assumptions'] = ctx.assumptions
     out['exhausted'] = ctx.exhausted
@@ -280,6 +290,9 @@ def main() -> int:
             for N in (1, 2):
                 items.append(('rejected', lf.default_cfg(N=N, B=1, errors=errors, t=t, offset=offset, finite=False,
                                                          faults=False, with_z=True)))
+                if N == 1:   # a rejected RE-solve (the period already carries a status) changes nothing either
+                    items.append(('rejected', lf.default_cfg(N=N, B=1, errors=errors, t=t, offset=offset, finite=False,
+                                                             faults=False, with_z=True, status0='sym')))
     results = run_items(dispatch, items, soft_items=[('reads', (p, None)) for p in ps['sampled']])
     twins = [dispatch(('reads', (LAGGED[0], 'lags_zero'))),
              dispatch(('frame', (LAGGED[0], 1, 1, 1, 'raise', 'ignore', False, 'forbid_t'))),
